@@ -4,6 +4,7 @@ models and prints one observation line per action.  Imports model files only.
 -/
 import DeadpoolVerif.Model.Managed
 import DeadpoolVerif.Model.Unmanaged
+import DeadpoolVerif.Model.PgConfig
 
 open DeadpoolVerif
 
@@ -196,6 +197,77 @@ def parseAction (ws : List String) : Option U.Action :=
 
 end UDrv
 
+namespace PgDrv
+open Pg
+
+def optStr (s : String) : Option String := if s == "-" then none else some (if s == "e" then "" else s)
+def showOptStr : Option String → String
+  | none => "-"
+  | some "" => "e"
+  | some s => s
+def listOf (s : String) : List String := if s == "-" || s == "" then [] else s.splitOn ","
+def optList (s : String) : Option (List String) :=
+  if s == "-" then none else some (if s == "[]" then [] else (s.splitOn ",").map fun x => if x == "e" then "" else x)
+def natList (l : List String) : List Nat := l.filterMap String.toNat?
+def showNats (l : List Nat) : String := if l.isEmpty then "-" else ",".intercalate (l.map toString)
+def showStrs (l : List String) : String := if l.isEmpty then "-" else ",".intercalate l
+def unE (s : String) : String := if s == "e" then "" else s
+def toE (s : String) : String := if s == "" then "e" else s
+def parseHost (s : String) : Host :=
+  if s.startsWith "U:" then { unix := true, name := unE (s.drop 2).toString }
+  else { unix := false, name := unE (s.drop 2).toString }
+def showHost (h : Host) : String := (if h.unix then "U:" else "T:") ++ toE h.name
+def optNat (s : String) : Option Nat := if s == "-" then none else s.toNat?
+def showOptNat : Option Nat → String
+  | none => "-"
+  | some n => toString n
+
+def showCfg (c : PgCfg) : String :=
+  s!"pgres ok user={showOptStr c.user} password={showOptStr c.password} dbname={showOptStr c.dbname} " ++
+  s!"options={showOptStr c.options} app={showOptStr c.appName} ssl={c.sslMode} " ++
+  s!"hosts={showStrs (c.hosts.map showHost)} hostaddrs={showStrs c.hostaddrs} ports={showNats c.ports} " ++
+  s!"cto={showOptNat c.connectTimeout} ka={if c.keepalives then 1 else 0} kai={c.keepalivesIdle} " ++
+  s!"tsa={c.targetSessionAttrs} cb={c.channelBinding} lbh={c.loadBalanceHosts}"
+
+def run (ws : List String) : String :=
+  let kvs := ws.map kv
+  let g (k : String) := lookup kvs k "-"
+  let base : Option PgCfg :=
+    if g "base" == "err" then none else
+    some { user := optStr (g "b.user"), password := optStr (g "b.password"), dbname := optStr (g "b.dbname"),
+           options := optStr (g "b.options"), appName := optStr (g "b.app"), sslMode := g "b.ssl",
+           hosts := (listOf (g "b.hosts")).map parseHost, hostaddrs := listOf (g "b.hostaddrs"),
+           ports := natList (listOf (g "b.ports")), connectTimeout := optNat (g "b.cto"),
+           keepalives := g "b.ka" == "1", keepalivesIdle := (optNat (g "b.kai")).getD 0,
+           targetSessionAttrs := g "b.tsa", channelBinding := g "b.cb", loadBalanceHosts := g "b.lbh" }
+  let c : Config :=
+    { url := g "url" == "1", user := optStr (g "user"), password := optStr (g "password"),
+      dbname := optStr (g "dbname"), options := optStr (g "options"), appName := optStr (g "app"),
+      sslMode := optStr (g "ssl"), host := optStr (g "host"), hosts := optList (g "hosts"),
+      hostaddr := optStr (g "hostaddr"), hostaddrs := optList (g "hostaddrs"),
+      port := optNat (g "port"), ports := (optList (g "ports")).map natList,
+      connectTimeout := optNat (g "cto"), keepalives := (optStr (g "ka")).map (· == "1"),
+      keepalivesIdle := optNat (g "kai"), targetSessionAttrs := optStr (g "tsa"),
+      channelBinding := optStr (g "cb"), loadBalanceHosts := optStr (g "lbh") }
+  match getPgConfig base (optStr (g "env")) c with
+  | .ok r => showCfg r
+  | .error .invalidUrl => "pgres err=invalid_url"
+  | .error .dbnameMissing => "pgres err=dbname_missing"
+  | .error .dbnameEmpty => "pgres err=dbname_empty"
+
+def recycling (ws : List String) : String :=
+  let m : RecyclingMethod := match ws with
+    | ["fast"] => .fast
+    | ["verified"] => .verified
+    | ["clean"] => .clean
+    | ["custom", s] => .custom s
+    | _ => .fast
+  match m.query with
+  | none => "pgquery none"
+  | some q => s!"pgquery some:{q}"
+
+end PgDrv
+
 structure DState where
   managed : Option State := none
   unmanaged : Option U.State := none
@@ -209,6 +281,8 @@ def handle (d : DState) (line : String) : DState × Option String :=
   | "error" :: _ => (d, none)
   | "trace" :: _ => (d, none)
   | "end" :: _ => (d, none)
+  | "pgcfg" :: rest => (d, some (PgDrv.run rest))
+  | "pgquery" :: rest => (d, some (PgDrv.recycling rest))
   | ["build", w, c, r, rt] =>
     match parseTmo w, parseTmo c, parseTmo r with
     | some w, some c, some r =>
